@@ -16,6 +16,8 @@
 EXTENDS NXWire, Json, Bitwise, SequencesExt
 
 CONSTANTS Cases,       \* set of case descriptors [tag, msg, mods]; see MCOFWire.tla
+          RCases,      \* set of received encodings [tag, k, wire, keep]: wire-legal bytes a peer may send, incl.
+                       \* forms the library's own encoder never produces; keep = the library preserves them
           Around       \* set of <<pre, post>>: numbers of foreign bytes before / after the message in the
                        \* receiver's buffer
 
@@ -33,6 +35,7 @@ SRep(t) == Hdr(17) \o <<Const(BE(t, 2)), U("flags", 2)>>
 OFLayout == [
   \* ---- messages
   hello            |-> Hdr(0),
+  hello_ext        |-> Hdr(0) \o <<Rest("body")>>,     \* a peer's HELLO may carry a body, which is to be ignored
   error            |-> Hdr(1) \o <<U("type", 2), U("code", 2), Rest("data")>>,
   echo_request     |-> Hdr(2) \o <<Rest("body")>>,
   echo_reply       |-> Hdr(3) \o <<Rest("body")>>,
@@ -120,7 +123,7 @@ Layout == OFLayout @@ NXActionLayout @@ NXMsgLayout
 Kinds == DOMAIN Layout
 
 \* sizeof() of the fixed part of each structure as asserted by the standard
-Declared == [ hello |-> 8, error |-> 12, echo_request |-> 8, echo_reply |-> 8, vendor |-> 12, features_request |-> 8,
+Declared == [ hello |-> 8, hello_ext |-> 8, error |-> 12, echo_request |-> 8, echo_reply |-> 8, vendor |-> 12, features_request |-> 8,
   features_reply |-> 32, get_config_request |-> 8, get_config_reply |-> 12, set_config |-> 12, packet_in |-> 18,
   flow_removed |-> 88, port_status |-> 64, packet_out |-> 16, flow_mod |-> 72, port_mod |-> 32,
   barrier_request |-> 8, barrier_reply |-> 8, queue_get_config_request |-> 12, queue_get_config_reply |-> 16,
@@ -319,8 +322,7 @@ WF(sv) ==
 (* ---- what the library lets a caller construct (the domain of the property) *)
 (* Beyond well-formedness: the library refuses or canonicalises these on      *)
 (* purpose, so the property is claimed for the canonical forms.               *)
-(*  - output action: max_len is only meaningful (and only kept) for           *)
-(*    OFPP_CONTROLLER                                   (NormalizeMaxLen)     *)
+(*  - (output action: see PackCanon / NormalizeMaxLen below)                   *)
 (*  - packet-in: total_len is the length of the whole frame, never less than  *)
 (*    the carried data; packet-out carries data only when it names no buffer  *)
 (*  - a vendor action is a multiple of 8 bytes; the generic vendor message /  *)
@@ -336,39 +338,67 @@ AllSubs(sv, P(_)) ==
   ELSE \A i \in 1..Len(Layout[sv.k]) : LET d == Layout[sv.k][i] IN
          /\ (d.t = "sub" => P(sv.f[d.n]))
          /\ (d.t \in Lists => \A j \in 1..Len(sv.f[d.n]) : P(sv.f[d.n][j]))
-NxmKnown(e) ==
+NxmNamed(e) == <<Num2(e.f.vendor, 1), e.f.field[1]>> \in {<<t[1], t[2]>> : t \in NxmFields}
+NxmKnown(e) ==                           \* an entry a caller builds
   /\ <<Num2(e.f.vendor, 1), e.f.field[1], Len(e.f.value)>> \in NxmFields
+  /\ NxmCallerMask(e.f.value, e.f.mask)
   /\ e.f.mask # <<>> =>
        /\ <<Num2(e.f.vendor, 1), e.f.field[1]>> \in NxmMaskable
-       /\ \E i \in 1..Len(e.f.mask) : e.f.mask[i] # 255
-       /\ \A i \in 1..Len(e.f.mask) : (e.f.value[i] & (255 - e.f.mask[i])) = 0
        /\ (<<Num2(e.f.vendor, 1), e.f.field[1]>> = <<1, 34>> => e.f.mask[1] < 16)    \* TCP flags are 12 bits
+NxmFromPeer(e) ==                        \* an entry a peer may send
+  /\ NxmPeerMask(e.f.value, e.f.mask)
+  /\ NxmNamed(e) => /\ <<Num2(e.f.vendor, 1), e.f.field[1], Len(e.f.value)>> \in NxmFields
+                    /\ (e.f.mask # <<>> => <<Num2(e.f.vendor, 1), e.f.field[1]>> \in NxmMaskable)
 IsNxmHeader(h) == \E t \in NxmFields : h = NxmHeader(BE(t[1], 2), <<t[2]>>, FALSE, t[3])
+\* the header of a field the library may or may not name: no mask bit, a payload width
+AnyNxmHeader(h) == h[3] % 2 = 0 /\ h[4] \in 1..127
+                   /\ (<<Num2(h, 1), h[3] \div 2>> \in {<<t[1], t[2]>> : t \in NxmFields} => IsNxmHeader(h))
 NxmDistinct(l) == \A i, j \in 1..Len(l) : i # j => <<l[i].f.vendor, l[i].f.field>> # <<l[j].f.vendor, l[j].f.field>>
-FmsKnown(s) ==
-  /\ (s.f.src[1] = 0 => IsNxmHeader(Slice(s.f.srcv, 1, 4)))
-  /\ (s.f.dst[1] \in {0, 1} => IsNxmHeader(Slice(s.f.dstv, 1, 4)))
-OwnRule(sv) ==
-  CASE sv.k = "a_output" -> sv.f.port = CtrlPort \/ sv.f.max_len = <<0, 0>>
-    [] sv.k \in {"packet_in", "nxt_packet_in"} -> sv.f.data = <<>> \/ Num2(sv.f.total_len, 1) >= Len(sv.f.data)
+\* rx = FALSE: what a caller constructs; rx = TRUE: what a peer may send (wider: see NXWire.tla on masks)
+Hd(h, rx) == IF rx THEN AnyNxmHeader(h) ELSE IsNxmHeader(h)
+FmsRule(s, rx) ==
+  /\ (s.f.src[1] = 0 => Hd(Slice(s.f.srcv, 1, 4), rx))
+  /\ (s.f.dst[1] \in {0, 1} => Hd(Slice(s.f.dstv, 1, 4), rx))
+OwnRule(sv, rx) ==
+  CASE sv.k \in {"packet_in", "nxt_packet_in"} -> sv.f.data = <<>> \/ Num2(sv.f.total_len, 1) >= Len(sv.f.data)
     [] sv.k = "packet_out" -> sv.f.buffer_id = NoBuffer \/ sv.f.data = <<>>
     [] sv.k = "a_vendor" -> Len(sv.f.body) % 8 = 0 /\ sv.f.vendor # NXVendor
     [] sv.k = "vendor" -> sv.f.vendor # NXVendor
+    [] sv.k = "hello_ext" -> FALSE         \* only ever received, and read as a plain hello
     [] sv.k = "a_generic" -> Num2(sv.f.type, 1) \notin (0..11) \cup {65535} /\ (4 + Len(sv.f.data)) % 8 = 0
     [] sv.k = "qp_generic" -> Num2(sv.f.property, 1) \notin {0, 1} /\ (4 + Len(sv.f.data)) % 8 = 0
     [] sv.k \in {"sreq_generic", "srep_generic"} -> Num2(sv.f.stype, 1) \notin (0..5) \cup {65535}
-    [] sv.k = "nxm" -> NxmKnown(sv)
-    [] sv.k = "fms" -> FmsKnown(sv)
+    [] sv.k = "nxm" -> IF rx THEN NxmFromPeer(sv) ELSE NxmKnown(sv)
+    [] sv.k = "fms" -> FmsRule(sv, rx)
     [] sv.k \in {"nx_flow_mod", "nxt_packet_in", "nxmatch"} -> NxmDistinct(sv.f.match)
     [] sv.k = "nx_flow_mod_table_id" -> sv.f.enable \in {<<0>>, <<1>>}
-    [] sv.k = "nxa_reg_move" -> IsNxmHeader(sv.f.src) /\ IsNxmHeader(sv.f.dst)
-    [] sv.k = "nxa_reg_load" -> IsNxmHeader(sv.f.dst)
-    [] sv.k = "nxa_output_reg" -> IsNxmHeader(sv.f.reg)
+    [] sv.k = "nxa_reg_move" -> Hd(sv.f.src, rx) /\ Hd(sv.f.dst, rx)
+    [] sv.k = "nxa_reg_load" -> Hd(sv.f.dst, rx)
+    [] sv.k = "nxa_output_reg" -> Hd(sv.f.reg, rx)
     [] sv.k = "nxa_bundle" -> sv.f.slave_type = <<0, 0, 0, 2>> /\ sv.f.dst = <<0, 0, 0, 0>> /\ sv.f.ofs_nbits = <<0, 0>>
-    [] sv.k = "nxa_bundle_load" -> sv.f.slave_type = <<0, 0, 0, 2>> /\ IsNxmHeader(sv.f.dst)
+    [] sv.k = "nxa_bundle_load" -> sv.f.slave_type = <<0, 0, 0, 2>> /\ Hd(sv.f.dst, rx)
     [] OTHER -> TRUE
-RECURSIVE Constructible(_)
-Constructible(sv) == OwnRule(sv) /\ AllSubs(sv, Constructible)
+RECURSIVE Constructible(_), Receivable(_)
+Constructible(sv) == OwnRule(sv, FALSE) /\ AllSubs(sv, Constructible)
+Receivable(sv) == OwnRule(sv, TRUE) /\ AllSubs(sv, Receivable)
+
+(* ---- what pack() does to the object itself ------------------------------- *)
+(* NormalizeMaxLen: max_len of an output action is only meaningful towards the *)
+(* controller; pack() sets it to 0 for every other port, in the object too, so *)
+(* the object after its first encoding is the canonical one.                   *)
+DescOf(k, n) == Layout[k][CHOOSE i \in 1..Len(Layout[k]) : Layout[k][i].n = n /\ Layout[k][i].t \in Valued]
+RECURSIVE PackCanon(_)
+PackCanon(sv) ==
+  IF sv.k \in Special THEN sv
+  ELSE LET g == [n \in DOMAIN sv.f |->
+                  LET d == DescOf(sv.k, n) IN
+                  IF d.t = "sub" THEN PackCanon(sv.f[n])
+                  ELSE IF d.t \in Lists THEN [j \in 1..Len(sv.f[n]) |-> PackCanon(sv.f[n][j])]
+                  ELSE sv.f[n]]
+       IN IF sv.k = "a_output" /\ sv.f.port # CtrlPort THEN SV(sv.k, [g EXCEPT !.max_len = <<0, 0>>])
+          ELSE SV(sv.k, g)
+\* how a received structure is read when the library deliberately ignores part of it
+RecvCanon(sv) == IF sv.k = "hello_ext" THEN SV("hello", [xid |-> sv.f.xid]) ELSE sv
 
 (* ---- decoding -------------------------------------------------------------*)
 \* which structure starts at b[o], for each list family
@@ -414,7 +444,8 @@ VendorMsgKind(b, o) ==
        IN IF ks = {} THEN "vendor" ELSE CHOOSE k \in ks : TRUE
 MsgKind(b, o) ==                        \* dispatch on the type byte (and stats type / vendor + subtype)
   LET t == b[o + 1] IN
-  CASE t = 0 -> "hello" [] t = 1 -> "error" [] t = 2 -> "echo_request" [] t = 3 -> "echo_reply"
+  CASE t = 0 -> (IF Num2(b, o + 2) = 8 THEN "hello" ELSE "hello_ext")
+    [] t = 1 -> "error" [] t = 2 -> "echo_request" [] t = 3 -> "echo_reply"
     [] t = 4 -> VendorMsgKind(b, o) [] t = 5 -> "features_request" [] t = 6 -> "features_reply"
     [] t = 7 -> "get_config_request" [] t = 8 -> "get_config_reply" [] t = 9 -> "set_config"
     [] t = 10 -> "packet_in" [] t = 11 -> "flow_removed" [] t = 12 -> "port_status" [] t = 13 -> "packet_out"
@@ -514,13 +545,15 @@ VARIABLES phase,     \* "idle" | "chosen" | "encoded" | "decoded" | "done"
           consumed,  \* how many bytes the peer's decoder consumed
           wire2,     \* re-encoding of the decoded object
           todo,      \* modifications the caller still performs (sequence of [path, v])
+          rx,        \* "" the object was built here | "keep" / "canon": its bytes came from a peer and the
+                     \* library preserves / deliberately canonicalises that encoding
           last, hist
-vars == <<phase, msg, wire, dec, consumed, wire2, todo, last, hist>>
-view == <<phase, msg, wire, dec, consumed, wire2, todo>>
+vars == <<phase, msg, wire, dec, consumed, wire2, todo, rx, last, hist>>
+view == <<phase, msg, wire, dec, consumed, wire2, todo, rx>>
 
 None == SV("none", <<>>)
 Init == /\ phase = "idle" /\ msg = None /\ wire = <<>> /\ dec = None /\ consumed = 0 /\ wire2 = <<>>
-        /\ todo = <<>>
+        /\ todo = <<>> /\ rx = ""
         /\ last = [a |-> "Init", args |-> [x |-> 0], exp |-> [x |-> 0]] /\ hist = <<>>
 Log(a, args, exp) == /\ last' = [a |-> a, args |-> args, exp |-> exp]
                      /\ hist' = Append(hist, [a |-> a, args |-> args, exp |-> exp])
@@ -532,17 +565,29 @@ Junk(n) == [i \in 1..n |-> (i * 37 + 11) % 256]
 Choose(c) ==
   /\ phase = "idle"
   /\ phase' = "chosen" /\ msg' = c.msg /\ todo' = c.mods
-  /\ UNCHANGED <<wire, dec, consumed, wire2>>
+  /\ UNCHANGED <<wire, dec, consumed, wire2, rx>>
   /\ Log("Choose", [tag |-> c.tag, msg |-> c.msg], [ok |-> TRUE])
+
+\* bytes arrive from a peer: wire-legal, but not necessarily what the library's own encoder would produce.
+\* msg becomes what a faithful decoder reads from them.
+Receive(r) ==
+  /\ phase = "idle"
+  /\ LET d == DecTop(r.k, r.wire, 1, 1 + Len(r.wire)) IN
+       msg' = IF d.ok THEN RecvCanon(d.v) ELSE Bad.v           \* (TypeOK fails if the oracle cannot read it)
+  /\ wire' = r.wire /\ rx' = (IF r.keep THEN "keep" ELSE "canon")
+  /\ phase' = "encoded" /\ todo' = <<>>
+  /\ UNCHANGED <<dec, consumed, wire2>>
+  /\ Log("Receive", [tag |-> r.tag, kind |-> r.k, wire |-> r.wire], [ok |-> TRUE])
 
 \* obj.pack() and len(obj)
 Encode ==
   /\ phase = "chosen"
-  /\ LET w == Wire(msg) IN
-       /\ wire' = w
-       /\ Log("Encode", [x |-> 0], [len |-> SizeOf(msg), wire |-> w, free |-> FreeBits(msg)])
+  /\ LET m == PackCanon(msg)
+         w == Wire(m)
+     IN /\ msg' = m /\ wire' = w
+        /\ Log("Encode", [x |-> 0], [len |-> SizeOf(m), wire |-> w, free |-> FreeBits(m)])
   /\ phase' = "encoded"
-  /\ UNCHANGED <<msg, dec, consumed, wire2, todo>>
+  /\ UNCHANGED <<dec, consumed, wire2, todo, rx>>
 
 \* the caller changes the object it has already encoded once.  A path is a sequence of steps
 \* [f |-> field name, i |-> 0 (the field itself) or the index of an element of that list field];
@@ -563,7 +608,7 @@ Modify ==
        /\ msg' = Put(msg, m.path, m.op, m.v)
        /\ Log("Modify", [path |-> m.path, op |-> m.op, v |-> m.v], [ok |-> TRUE])
   /\ phase' = "chosen" /\ todo' = Tail(todo)
-  /\ UNCHANGED <<wire, dec, consumed, wire2>>
+  /\ UNCHANGED <<wire, dec, consumed, wire2, rx>>
 
 \* the peer decodes.  src = "spec": the bytes are the canonical image computed here; src = "own": the
 \* bytes the implementation itself produced in Encode (they differ only in free bits, so this choice
@@ -571,29 +616,32 @@ Modify ==
 \* with post foreign bytes.
 Decode(src, pre, post) ==
   /\ phase = "encoded" /\ todo = <<>>
-  /\ (IF src = "spec" THEN TRUE ELSE src = "own" /\ HasMatch(msg) /\ FreeBits(msg) # {})
+  /\ (IF src = "spec" THEN TRUE ELSE src = "own" /\ rx = "" /\ HasMatch(msg) /\ FreeBits(msg) # {})
   /\ <<pre, post>> \in Around
   /\ LET buf == Junk(pre) \o wire \o Junk(post)
          r == DecTop(msg.k, buf, pre + 1, pre + 1 + Len(wire))
-         v == IF r.ok THEN r.v ELSE Bad.v      \* (Lossless fails if the oracle cannot decode its own image)
+         v == IF r.ok THEN RecvCanon(r.v) ELSE Bad.v   \* (Lossless fails if the oracle cannot decode its own image)
      IN /\ dec' = v /\ consumed' = r.n
         /\ Log("Decode", [src |-> src, pre |-> Junk(pre), post |-> Junk(post), wire |-> wire],
                [consumed |-> r.n, eq |-> v = msg, val |-> v])
   /\ phase' = "decoded"
-  /\ UNCHANGED <<msg, wire, wire2, todo>>
+  /\ UNCHANGED <<msg, wire, wire2, todo, rx>>
 
 \* obj2.pack()
 Reencode ==
   /\ phase = "decoded"
-  /\ LET w == Wire(dec) IN
-       /\ wire2' = w
-       /\ Log("Reencode", [x |-> 0], [len |-> SizeOf(dec), wire |-> w, free |-> FreeBits(dec)])
+  /\ LET m == PackCanon(dec)
+         w == Wire(m)
+     IN /\ dec' = m /\ wire2' = w
+        \* rt: decoding these bytes again yields the same object (Idempotent below)
+        /\ Log("Reencode", [x |-> 0], [len |-> SizeOf(m), wire |-> w, free |-> FreeBits(m), rt |-> TRUE])
   /\ phase' = "done"
-  /\ UNCHANGED <<msg, wire, dec, consumed, todo>>
+  /\ UNCHANGED <<msg, wire, consumed, todo, rx>>
 
 DecodeAny == \E src \in {"spec", "own"}, pp \in Around : Decode(src, pp[1], pp[2])
 ChooseAny == \E c \in Cases : Choose(c)
-Next == ChooseAny \/ Encode \/ Modify \/ DecodeAny \/ Reencode
+ReceiveAny == \E r \in RCases : Receive(r)
+Next == ChooseAny \/ ReceiveAny \/ Encode \/ Modify \/ DecodeAny \/ Reencode
 Spec == Init /\ [][Next]_vars
 
 (* ========================================================================= *)
@@ -602,21 +650,27 @@ Spec == Init /\ [][Next]_vars
 (* phases leave them UNCHANGED), which keeps TLC from re-encoding the same object in every state.       *)
 TypeOK == /\ phase \in {"idle", "chosen", "encoded", "decoded", "done"}
           /\ (phase = "chosen" => WF(msg) /\ Constructible(msg))
+          /\ (phase = "encoded" /\ rx # "" => WF(msg) /\ Receivable(msg))
           /\ (phase = "encoded" => IsBytes(wire))
           /\ (phase = "done" => IsBytes(wire2))
 \* the header length field (or the structure's own length field / declared size) is the byte count
 LenFieldOK ==
   phase = "encoded" =>
-    /\ Len(wire) = SizeOf(msg)
+    /\ (rx # "canon" => Len(wire) = SizeOf(msg))
     /\ (IsMsg(msg.k) => Num2(wire, 3) = Len(wire) /\ wire[1] = 1)
     /\ Len(wire) <= 65535
 \* decoding consumes exactly the message and loses nothing
 ConsumedOK == phase = "decoded" => consumed = Len(wire)
 Lossless == phase = "decoded" => dec = msg
 \* re-encoding reproduces the bytes
-Stable == phase = "done" => wire2 = wire
+\* (of a peer's bytes too, whenever the library claims to preserve that encoding)
+Stable == phase = "done" /\ rx # "canon" => wire2 = wire
+\* ... and in every case the re-encoding decodes to the very object it was made from
+Idempotent == phase = "done" =>
+                LET r == DecTop(dec.k, wire2, 1, 1 + Len(wire2)) IN
+                r.ok /\ RecvCanon(r.v) = dec /\ r.n = Len(wire2)
 \* an encoding is always that of the object as it is now (no stale image after a change)
-Fresh == phase = "encoded" => wire = Wire(msg)
+Fresh == phase = "encoded" /\ rx # "canon" => wire = Wire(msg)
 \* every action and queue property occupies a multiple of 8 bytes
 RECURSIVE Aligned(_)
 Aligned(sv) ==
